@@ -93,6 +93,11 @@ Theorem C15_roundtrip_pmd : forall e p, pmd_ok p -> decode_pmd e (enc_pmd e p) =
 Proof. exact roundtrip_pmd. Qed.
 Print Assumptions C15_roundtrip_pmd.
 
+(* ---- Participant_GUID / Endpoint_GUID (dispose keys) --------------------------------------- *)
+Theorem C15_roundtrip_key : forall e k g, guid_ok g -> decode_key e k (encode_key e k g) = Ok g.
+Proof. exact roundtrip_key. Qed.
+Print Assumptions C15_roundtrip_key.
+
 (* ---- defaults ---------------------------------------------------------------------------- *)
 (* whatever bytes were decoded: every field whose parameter is absent from the wire has its default *)
 Theorem C15_defaults : forall e k bs v,
@@ -133,7 +138,7 @@ Example foreign_ok : foreign_okb KQos (32768, [1;2;3]) = true. Proof. reflexivit
 Example spdp_ex : spdp :=
   Build_spdp (2, 3) (1, 18) false [1;2;3;4;5;6;7;8;9;10;11;12;0;0;1;193]
     [LUdpV4 127 0 0 1 7410; LUdpV6 [32;1;13;184;0;0;0;0;0;0;0;0;0;0;0;1] 7411 0 0] [] [LInvalid; LOther 8 70000 (zeros 16)] []
-    402656319 (Some (20, 0)) 0 None (Some [104; 195; 169]).
+    402656319 (Some (20, 0)) 0 None (Some [104; 195; 169]) (Some (2147483649, 2147483648)).
 Example spdp_ex_ok : spdp_okb spdp_ex = true. Proof. reflexivity. Qed.
 Example spdp_ex_roundtrip : decode_spdp BE (encode_spdp BE spdp_ex) = Ok spdp_ex.
 Proof. vm_compute. reflexivity. Qed.
@@ -141,7 +146,7 @@ Proof. vm_compute. reflexivity. Qed.
 Example spdp_minimal_defaults :
   decode_spdp LE (enc_pl LE [(21, [2;3]); (22, [1;18]); (80, [1;2;3;4;5;6;7;8;9;10;11;12;0;0;1;193]);
                             (88, [63;12;0;24])])
-  = Ok (Build_spdp (2, 3) (1, 18) false [1;2;3;4;5;6;7;8;9;10;11;12;0;0;1;193] [] [] [] [] 402656319 None 0 None None).
+  = Ok (Build_spdp (2, 3) (1, 18) false [1;2;3;4;5;6;7;8;9;10;11;12;0;0;1;193] [] [] [] [] 402656319 None 0 None None None).
 Proof. vm_compute. reflexivity. Qed.
 
 Example reader_ex : reader_data :=
@@ -149,7 +154,8 @@ Example reader_ex : reader_data :=
     [1;2;3;4;5;6;7;8;9;10;11;12;0;0;1;7] (Some [1;2;3;4;5;6;7;8;9;10;11;12;0;0;1;193])
     [83;113;117;97;114;101] [83;104;97;112;101;84;121;112;101]
     (Build_qos (Some Volatile) None None None (Some Shared) None None (Some BestEffort) None None None None)
-    (Some (Build_content_filter [102] [83;113] [68;68;83;83;81;76] [120;62;37;48] [[49;48]; []])).
+    (Some (Build_content_filter [102] [83;113] [68;68;83;83;81;76] [120;62;37;48] [[49;48]; []]))
+    (Some (2147483651, 0)).
 Example reader_ex_ok : reader_okb reader_ex = true. Proof. vm_compute. reflexivity. Qed.
 Example reader_ex_roundtrip : decode_reader LE (encode_reader LE reader_ex) = Ok reader_ex.
 Proof. vm_compute. reflexivity. Qed.
